@@ -82,18 +82,23 @@ def ExtObj.hashOf (H : Bytes → Bytes) (o : ExtObj) : ExtObj × Bytes :=
 
 /-! ### `io.GetVarSize` of a collection (pkg/io/size.go:71-92) -/
 
-/-- what the type switch on the first ELEMENT VALUE of the slice finds (size.go:76-89). -/
+/-- what `GetVarSize` finds out about the first ELEMENT of the collection (size.go:75-99, after fix 756d84c). -/
 inductive ElemKind where
-  | serializable   -- the element value implements io.Serializable (pointers; value types with value receivers)
+  | serializable          -- the element value implements io.Serializable (pointers; value types with value receivers)
+  | pointerOnly (addressable : Bool)
+                          -- a structure whose methods have pointer receivers ([]Attribute, []Signer, []Witness, []util.Uint256 …):
+                          -- counted through `elem.Addr()` when the element is addressable (elements of a slice are; those of
+                          -- an array passed by value are not)
   | int1 | int2 | int4 | int8
-  | other          -- anything else — including struct VALUES whose methods have pointer receivers ([]Attribute, []Signer,
-                   -- []Witness, []util.Uint256 …): counted as 0 bytes per element
+  | other                 -- anything else: 0 bytes per element (before the fix this was also the fate of `pointerOnly`)
 
-/-- `GetVarSize(slice)`: var-int size of the length + the elements as the kind says; `sizes` = encoded size of each
-element. -/
+/-- `GetVarSize(collection)`: var-int size of the length + the elements as the kind says; `sizes` = encoded size of
+each element. -/
 def getVarSizeSlice (kind : ElemKind) (sizes : List Nat) : Nat :=
   varUintSize sizes.length + (match kind with
     | .serializable => sizes.sum
+    | .pointerOnly true => sizes.sum
+    | .pointerOnly false => 0
     | .int1 => sizes.length
     | .int2 => sizes.length * 2
     | .int4 => sizes.length * 4
